@@ -913,6 +913,10 @@ def run_case(case):
         if not g or case['dyn'] != 'sto': return []
         a = sum(r for (_, r, _, _) in g['tr'])
         if a <= 0: return []
+        # these are aimed at the selection draw (the second random number of an iteration) only: as a *waiting-time* draw a number within
+        # 2^-53 of 1 gives a step too short to move the float clock, and an infection at the very time of the infector's — the float
+        # artefact the properties' "every random schedule" (in real numbers) leaves out
+        if len(sr.recent) - g['mark'] != 1: return []
         out = []; c = 0.0
         for (_, r, _, _) in g['tr'][:-1]:
             c += r; out.append(c / a)
